@@ -473,22 +473,33 @@ fn pretty_print_rustfmt(tokens: TokenStream) -> String {
     {
         #[cfg(feature = "verif")]
         verif::sync("fmt.spawned");
-        let stdin = proc.stdin.as_mut().unwrap();
-        stdin.write_all(value.as_bytes()).unwrap();
+        // The formatter may exit without reading all of its input (broken pipe).
+        // A failed write is not fatal since the unformatted text is still available.
+        let written = proc
+            .stdin
+            .take()
+            .map(|mut stdin| stdin.write_all(value.as_bytes()).is_ok())
+            .unwrap_or(false);
         #[cfg(feature = "verif")]
         verif::sync("fmt.written");
 
-        let output = proc.wait_with_output().unwrap();
-        #[cfg(feature = "verif")]
-        verif::emit(format!(
-            "{{\"ev\":\"fmt.wait\",\"success\":{},\"stdout_len\":{}}}",
-            output.status.success(),
-            output.stdout.len()
-        ));
-        if output.status.success() {
+        if let Ok(output) = proc.wait_with_output() {
             #[cfg(feature = "verif")]
-            verif::sync("fmt.formatted");
-            return String::from_utf8(output.stdout).unwrap();
+            verif::emit(format!(
+                "{{\"ev\":\"fmt.wait\",\"success\":{},\"stdout_len\":{}}}",
+                output.status.success(),
+                output.stdout.len()
+            ));
+            // Only use the output if the formatter read the program, succeeded, and printed it.
+            if written && output.status.success() {
+                if let Ok(formatted) = String::from_utf8(output.stdout) {
+                    if !formatted.trim().is_empty() {
+                        #[cfg(feature = "verif")]
+                        verif::sync("fmt.formatted");
+                        return formatted;
+                    }
+                }
+            }
         }
     }
     #[cfg(feature = "verif")]
